@@ -327,8 +327,19 @@ func c01Specs() []leafSpec {
 				vals = append(vals, gen.Q(strings.Repeat("x", l)))
 			}
 		}
+		for _, unit := range []string{"é", "😀", "€"} {
+			for _, l := range []int{n - 1, n, n + 1} {
+				if l >= 0 {
+					vals = append(vals, gen.Q(strings.Repeat(unit, l)))
+				}
+			}
+		}
+		vals = append(vals, gen.Q("ab€"), gen.Q("aé"))
 		specs = append(specs, leafSpec{fmt.Sprintf("minLength %d", n), []gen.Rule{{Name: "minLength", Val: lit(strconv.Itoa(n))}}, "string", gen.Q(strings.Repeat("y", n+2)), vals})
 		specs = append(specs, leafSpec{fmt.Sprintf("maxLength %d", n), []gen.Rule{{Name: "maxLength", Val: lit(strconv.Itoa(n))}}, "string", gen.Q(strings.Repeat("y", n)), vals})
+	}
+	for _, big := range []string{"18446744073709551615", "18446744073709551616", "18446744073709551617", "18446744073709551619", "9223372036854775808", "10000000000000000000", "36893488147419103232", "99999999999999999999999999"} {
+		specs = append(specs, leafSpec{"minLength " + big, []gen.Rule{{Name: "minLength", Val: lit(big)}}, "string", gen.Q("yyy"), []string{gen.Q(""), gen.Q("abc"), gen.Q("a")}})
 	}
 	for _, ps := range gen.Patterns {
 		var vals []string
